@@ -412,3 +412,18 @@ Definition lookup_ok (c : rconfig) (s : rstate) (lk : lookup) : bool :=
 
 Definition rstate_ok (c : rconfig) (s : rstate) (threads : list nat) : bool :=
   forallb (fun t => forallb (lookup_ok c s) (r_done (rthr s t))) threads.
+
+(* ---------------------------------------------------------------------------
+   Predicate evaluated on observed registry executions.  The harness records, for
+   every snapshot a goroutine took of the registry (one read-locked operation),
+   the registrations that this goroutine itself had completed before ([fst]: a
+   lower bound of "completed before the lookup started") and the registrations
+   visible in the snapshot ([snd]).  In the model every snapshot is a prefix of
+   one sequence of registrations, hence: own earlier registrations are visible,
+   and any two snapshots are comparable by inclusion. *)
+Definition subset (a b : list nat) : bool :=
+  forallb (fun x => existsb (Nat.eqb x) b) a.
+
+Definition robs_ok (os : list (list nat * list nat)) : bool :=
+  forallb (fun o => subset (fst o) (snd o)) os &&
+  forallb (fun o1 => forallb (fun o2 => subset (snd o1) (snd o2) || subset (snd o2) (snd o1)) os) os.
